@@ -130,6 +130,21 @@ impl Iso2022JpDecoder {
         loop_preamble = {},
         eof = {
             match self.decoder_state {
+                Iso2022JpDecoderState::TrailByte
+                | Iso2022JpDecoderState::EscapeStart
+                | Iso2022JpDecoderState::Escape => {
+                    // We need to check space without intent to write in order to
+                    // make sure that there is space for the replacement character.
+                    // (An earlier malformed sequence in the same call of a
+                    // replacing method may already have used up the space that
+                    // was checked before the last byte was read.)
+                    if let Space::Full(dst_written) = dest.check_space_bmp() {
+                        return (DecoderResult::OutputFull, src_consumed, dst_written);
+                    }
+                }
+                _ => {}
+            }
+            match self.decoder_state {
                 Iso2022JpDecoderState::TrailByte | Iso2022JpDecoderState::EscapeStart => {
                     self.decoder_state = self.output_state;
                     return (DecoderResult::Malformed(1, 0), src_consumed, dest.written());
